@@ -20,7 +20,7 @@ import (
 
 func init() {
 	register(&Prop{ID: "C14", Run: c14Run,
-		Rule: "foreach: item source {literal items, list query, dotted list query, query of a list inside a list (`nest[1]`), query of a SPARSE list the program itself fills through indexed paths (`xs[3]`; the slots in between are padding), leaf query, container query, list of containers, missing path} x NULL entries (YAML nulls, never-written slots, a null leaf; one, several, all of them — a null entry is an item) x variable {default, named} x body {ext trace, log, both} + logging child + failing position {none, top-level abort/ext-fail (first item), conditional child at the first flagged item, non-boolean condition}, x the body WRITES INTO THE LIST IT ITERATES OVER (sources list, deep, sparse, clist: a template operation overwrites one slot in place on every pass — a slot visited later, the current one, one visited before, the slot after the last —: the items are the entries the list had when the loop started) x a child of the body logs a template that FAILS WHILE IT IS EXECUTED after having produced output (the line is the text as it stands, the lines rendered after it are what they are without it) x the same forEach operation VALUE executed twice (the second run does what the first did), with the direct predicates closed-form trace AND number of passes through the body == number of items (counted on listener events, whatever the body prints) AND final data == data at loop start except for the written slot; first the smallest such records, then random ones; loop: bound n in 0..6 x failure in iteration k (body or post) x counter written by post or body x with/without init; call: argsPath {default, single key, dotted 2 and 3, templated} x static/templated argument x nested callee with its own argsPath x failure {none, inner, outer} x pre-existing data at the path's parent; callrep: ONE call operation that runs m = 0..5 times with argument templates (top-level and nested) whose input changes between the runs — in a loop body (input = counter), in a forEach body (input = item; call directly among the body's operations or in a `steps` child; literal items / list query) or as the same operation value passed to Execute repeatedly — x argsPath x failure from the k-th run on: the m-th run must see the arguments rendered against the data of the m-th run (closed-form trace); defs: all sequences of length<=4 over {define f=first, define f=second, define g, call f, call g, call undefined}; nest: 1..3 iteration mechanisms nested in each other — forEach (literal items / list query whose list may hold null entries, default or custom variable) / loop (bound 0..3) / call, each holding the next one among its body's OPERATIONS or in a `steps` child — whose innermost body reads every variable in scope when it runs (call arguments, or a template operation printed by a callable), x optional ext trace per body x failure from the k-th innermost run on: closed-form trace = product of the layers' items in order up to the failure, variables and arguments gone, nothing else disturbed; rand: random nested programs (forEach in forEach — also over lists with null entries and over a null leaf —, loops and calls inside bodies, set/template bodies — some template operations write into a slot of one of the lists the program iterates over —, conditions that may be blank, depth<=3) compared with the model and with the independent Go reference interpreter of c12_ref.go (direct predicate; the reference answers inside its domain: plain dotted key paths, container queries with at most one key). Every program runs twice (Go structs, generated YAML). Non-trivial: at least one iteration / call actually executes. Distinct = distinct canonical case JSON.",
+		Rule: "foreach: item source {literal items, list query, dotted list query, query of a list inside a list (`nest[1]`), query of a SPARSE list the program itself fills through indexed paths (`xs[3]`; the slots in between are padding), leaf query, container query, list of containers, missing path} x NULL entries (YAML nulls, never-written slots, a null leaf; one, several, all of them — a null entry is an item) x variable {default, named} x body {ext trace, log, both} + logging child + failing position {none, top-level abort/ext-fail (first item), conditional child at the first flagged item, non-boolean condition}, x the body WRITES INTO THE LIST IT ITERATES OVER (sources list, deep, nested, sparse, clist: a template operation overwrites one slot in place on every pass — a slot visited later, the current one, one visited before, the slot after the last —: the items are the entries the list had when the loop started) x a child of the body logs a template that FAILS WHILE IT IS EXECUTED after having produced output (the line is the text as it stands, the lines rendered after it are what they are without it) x the same forEach operation VALUE executed twice (the second run does what the first did) x a log operation after the forEach / after the call that reads the variable / the arguments through a TEMPLATE (gone for the template engine's snapshot as for Lookup), with the direct predicates closed-form trace AND number of passes through the body == number of items (counted on listener events, whatever the body prints) AND final data == data at loop start except for the written slot; first the smallest such records, then random ones; loop: bound n in 0..6 x failure in iteration k (body or post) x counter written by post or body x with/without init; call: argsPath {default, single key, dotted 2 and 3, templated} x static/templated argument x an argument (top-level and nested) whose template fails while it is executed after having produced output (it is passed as the text it is, the others rendered) x nested callee with its own argsPath x failure {none, inner, outer} x pre-existing data at the path's parent; callrep: ONE call operation that runs m = 0..5 times with argument templates (top-level and nested) whose input changes between the runs — in a loop body (input = counter), in a forEach body (input = item; call directly among the body's operations or in a `steps` child; literal items / list query) or as the same operation value passed to Execute repeatedly — x argsPath x failure from the k-th run on: the m-th run must see the arguments rendered against the data of the m-th run (closed-form trace); defs: all sequences of length<=4 over {define f=first, define f=second, define g, call f, call g, call undefined}; nest: 1..3 iteration mechanisms nested in each other — forEach (literal items / list query whose list may hold null entries, default or custom variable) / loop (bound 0..3) / call, each holding the next one among its body's OPERATIONS or in a `steps` child — whose innermost body reads every variable in scope when it runs (call arguments, or a template operation printed by a callable), x optional ext trace per body x failure from the k-th innermost run on: closed-form trace = product of the layers' items in order up to the failure, variables and arguments gone, nothing else disturbed; rand: random nested programs (texts now and then hold a template that fails while it is executed or does not parse; forEach in forEach — also over lists with null entries and over a null leaf —, loops and calls inside bodies, set/template bodies — some template operations write into a slot of one of the lists the program iterates over —, conditions that may be blank, depth<=3) compared with the model and with the independent Go reference interpreter of c12_ref.go (direct predicate; the reference answers inside its domain: plain dotted key paths, container queries with at most one key). Every program runs twice (Go structs, generated YAML). Non-trivial: at least one iteration / call actually executes. Distinct = distinct canonical case JSON.",
 		Assumptions: []string{
 			"template semantics owned by the model: literal text and {{ .a.b }} field chains of scalars; strconv.ParseBool",
 			"loop counters are written by the harness' own ext action `inc` (data[id]++, data[id_go] := data[id] < n, data[id_end] := !(data[id] < n)), mirrored by the model",
@@ -53,7 +53,7 @@ type c14FE struct {
 	Child bool    `json:"child"` // body has a child (order 5) logging C:<item>
 	Fail  string  `json:"fail"`  // "" | abort | extfail (top level, every item) | cabort | cext (child, order 1, conditional) | cond (child with non-boolean condition)
 	When  string  `json:"when"`  // condition of the failing child for non-clist sources: "" (none) | true | false
-	// > 0: the body WRITES INTO THE ITEM SOURCE while it is being iterated (sources list, deep, sparse, clist): every
+	// > 0: the body WRITES INTO THE ITEM SOURCE while it is being iterated (sources list, deep, nested, sparse, clist): every
 	// pass overwrites slot Write-1 of the queried list IN PLACE — a template operation whose path is the indexed path
 	// of that slot (`xs[2]`); Write-1 == number of items is the slot after the last one (the list grows).  The slot may
 	// have been visited already, be the current one, or be still to come.  The items of the loop are the entries the
@@ -67,13 +67,16 @@ type c14FE struct {
 	// the forEach operation VALUE is executed twice by the executor (never together with Write): the second run
 	// does what the first one did
 	Twice bool `json:"twice,omitempty"`
+	// the forEach is followed by a log operation that READS THE VARIABLE THROUGH A TEMPLATE (the data snapshot the
+	// template engine gets — another route than Lookup): gone means gone there too
+	After bool `json:"after,omitempty"`
 }
 
 const c14NoiseMsg = "N-{{ .other.nope }}-{{ .keep.x }}"
 
 func (p *c14FE) writable() bool {
 	switch p.Source {
-	case "list", "deep", "sparse", "clist":
+	case "list", "deep", "nested", "sparse", "clist":
 		return true
 	}
 	return false
@@ -81,8 +84,11 @@ func (p *c14FE) writable() bool {
 
 // the path of the queried list (sources with a list)
 func (p *c14FE) listPath() string {
-	if p.Source == "deep" {
+	switch p.Source {
+	case "deep":
 		return "deep.er.xs"
+	case "nested":
+		return "nest[1]"
 	}
 	return "xs"
 }
@@ -299,7 +305,11 @@ func (p *c14FE) prog() []c12Op {
 	if p.Twice {
 		out = append(out, op) // made one and the same operation value by the evaluation (share)
 	}
-	return append(out, op)
+	out = append(out, op)
+	if p.After {
+		out = append(out, c12Op{K: "log", Msg: "Z:" + p.ref()})
+	}
+	return out
 }
 
 // expected (r / l / t) events, in closed form; failed = the run must return an error; iterations = how often
@@ -463,7 +473,16 @@ type c14Call struct {
 	Inner    *string `json:"inner"`    // g's argsPath
 	Fail     string  `json:"fail"`     // "" | inner | outer
 	Sibling  bool    `json:"sibling"`  // data already holds another key under the path's parent
+	// one more argument whose template PARSES and FAILS WHILE IT IS EXECUTED after having produced output (a field of
+	// a scalar): rendering the arguments is lenient — that argument is the text as it stands, the others are
+	// rendered as they are without it
+	BadArg bool `json:"badArg,omitempty"`
+	// the call is followed by a log operation that READS THE ARGUMENTS THROUGH A TEMPLATE (the data snapshot the
+	// template engine gets — another route than Lookup): gone means gone there too
+	After bool `json:"after,omitempty"`
 }
+
+const c14BadArg = "B-{{ .name.nope }}-{{ .keep.x }}"
 
 func (p *c14Call) path() string {
 	if p.ArgsPath == nil {
@@ -503,6 +522,9 @@ func (p *c14Call) data() W {
 func (p *c14Call) prog() []c12Op {
 	ap, ip := p.path(), p.innerPath()
 	f := &c12Act{Name: "f", Ops: []c12Op{{K: "log", Msg: "f:{{ ." + ap + ".x }}/{{ ." + ap + ".sub.z }}/{{ ." + ap + ".n }}"}}}
+	if p.BadArg {
+		f.Ops[0].Msg += "/{{ ." + ap + ".bad }}/{{ ." + ap + ".sub.bad }}"
+	}
 	if p.Nested {
 		f.Children = append(f.Children, c12Act{Name: "inner", Order: 1, Ops: []c12Op{
 			{K: "call", Name: "g", ArgsPath: p.Inner, Args: plainWire(map[string]any{"y": "{{ ." + ap + ".x }}!"})}}})
@@ -519,11 +541,20 @@ func (p *c14Call) prog() []c12Op {
 	if p.Tmpl {
 		val = "{{ .name }}-{{ .keep.x }}"
 	}
-	return []c12Op{
+	args := map[string]any{"x": val, "n": 5, "sub": map[string]any{"z": "{{ .name }}"}}
+	if p.BadArg {
+		args["bad"] = c14BadArg
+		args["sub"] = map[string]any{"z": "{{ .name }}", "bad": c14BadArg}
+	}
+	out := []c12Op{
 		{K: "define", Name: "g", Body: g},
 		{K: "define", Name: "f", Body: f},
-		{K: "call", Name: "f", ArgsPath: p.ArgsPath, Args: plainWire(map[string]any{"x": val, "n": 5, "sub": map[string]any{"z": "{{ .name }}"}})},
+		{K: "call", Name: "f", ArgsPath: p.ArgsPath, Args: plainWire(args)},
 	}
+	if p.After {
+		out = append(out, c12Op{K: "log", Msg: "Z:{{ ." + ap + ".x }}/{{ ." + ip + ".y }}"})
+	}
+	return out
 }
 
 func (p *c14Call) expect() (evs [][]any, failed bool) {
@@ -531,7 +562,12 @@ func (p *c14Call) expect() (evs [][]any, failed bool) {
 	if p.Tmpl {
 		val = "N-1"
 	}
-	evs = append(evs, []any{"l", "f:" + val + "/N/5"})
+	if p.BadArg {
+		// the value of the argument that could not be rendered is its text (a value is printed, not rendered again)
+		evs = append(evs, []any{"l", "f:" + val + "/N/5/" + c14BadArg + "/" + c14BadArg})
+	} else {
+		evs = append(evs, []any{"l", "f:" + val + "/N/5"})
+	}
 	if p.Nested {
 		evs = append(evs, []any{"l", "g:" + val + "!"})
 		if p.Fail == "inner" {
@@ -545,6 +581,9 @@ func (p *c14Call) expect() (evs [][]any, failed bool) {
 	evs = append(evs, []any{"l", "f-tail"})
 	return evs, false
 }
+
+// what the log operation after the call prints: the arguments are gone, for the template engine too
+const c14CallAfter = "Z:<no value>/<no value>"
 
 // ---------------------------------------------------------------- repeated calls
 
@@ -807,6 +846,12 @@ func (g *c14Gen) fresh(prefix string) string {
 // refs that are guaranteed to hit a scalar or nothing
 func (g *c14Gen) ref() string {
 	r := g.r
+	if r.Intn(14) == 0 {
+		// a template that cannot be rendered: it fails while it is executed (a field of a scalar; in a message,
+		// after the output of what precedes it), or it does not parse (an unclosed action).  Where rendering is
+		// lenient the text stays as it is; a template operation fails.
+		return pick(r, []string{"{{ .name.nope }}", "{{ .name.nope }}", "{{ .name"})
+	}
 	pool := []string{"{{ .name }}", "{{ .keep.x }}", "{{ .nokey }}", "{{ .flagT }}", "{{ .cfg.mode }}", "{{ .args.x }}", "{{ .no.such }}", "lit"}
 	for _, v := range g.vars {
 		pool = append(pool, "{{ ."+v+" }}", "{{ ."+v+" }}")
@@ -978,11 +1023,11 @@ func c14RandData() W {
 
 func c14Run(c *Ctx) {
 	r := c.Rng
-	strs := []string{"a", "b", "c", "d", "e", "zz"}
+	strs := []string{"a", "b", "c", "d", "e", "zz", "f7", "g", "h9"}
 	// the smallest records first (so that a failure is reported on a minimal one): a body that writes into the list
 	// it iterates over — a slot visited later, the current one, one visited before, the slot after the last —, a body
 	// that logs a template failing at execution, the same forEach value executed twice
-	for _, src := range []string{"list", "deep", "sparse", "clist"} {
+	for _, src := range []string{"list", "deep", "nested", "sparse", "clist"} {
 		for w := 1; w <= 4; w++ {
 			c.Do("foreach", c14FE{Source: src, Items: []string{"a", "b", "c"}, Bad: []bool{false, false, false}, Log: true, Var: sp("it"), Write: w})
 		}
@@ -996,6 +1041,9 @@ func c14Run(c *Ctx) {
 		p := c14FE{Source: pick(r, []string{"items", "list", "list", "deep", "nested", "sparse", "leaf", "cont", "clist", "clist", "missing"}),
 			Ext: r.Intn(2) == 0, Log: r.Intn(4) > 0, Child: r.Intn(2) == 0}
 		n := r.Intn(5)
+		if r.Intn(8) == 0 {
+			n = pick(r, []int{5, 6, 7, 9}) // lists whose backing array has / has no spare capacity when the body appends
+		}
 		perm := r.Perm(len(strs))
 		for j := 0; j < n; j++ {
 			p.Items = append(p.Items, strs[perm[j]])
@@ -1039,6 +1087,7 @@ func c14Run(c *Ctx) {
 		}
 		p.Noise = r.Intn(6) == 0
 		p.Twice = p.Write == 0 && r.Intn(8) == 0
+		p.After = r.Intn(3) == 0
 		c.Do("foreach", p)
 	}
 	for i := 0; i < c.N(500); i++ {
@@ -1054,7 +1103,7 @@ func c14Run(c *Ctx) {
 	for i := 0; i < c.N(500); i++ {
 		c.Tick()
 		p := c14Call{ArgsPath: pick(r, paths), Tmpl: r.Intn(2) == 0, Nested: r.Intn(2) == 0,
-			Fail: pick(r, []string{"", "", "inner", "outer"}), Sibling: r.Intn(3) == 0}
+			Fail: pick(r, []string{"", "", "inner", "outer"}), Sibling: r.Intn(3) == 0, BadArg: r.Intn(5) == 0, After: r.Intn(3) == 0}
 		p.Inner = pick(r, []*string{sp("in"), sp("in.ner"), sp("x.y.z"), sp("p2")})
 		c.Do("call", p)
 	}
@@ -1225,14 +1274,23 @@ func c14Eval(c *Ctx, kind string, raw []byte) {
 		nprog := len(prog)
 		// the forEach operation(s): the last entry of the program — the last two, one and the same operation value,
 		// when it is executed twice
-		nfe := 1
+		nfe, tail := 1, 0
+		if p.After {
+			tail = 1
+		}
+		last := nprog - tail - 1 // index of the (last) forEach
 		if p.Twice {
 			nfe = 2
 			c.Dist("foreach:same-operation-value-executed-twice")
 			if len(want) > 0 {
 				want = append(append([][]any{}, want...), want...)
 			}
-			share = func(acts []pipeline.Action) { acts[nprog-1] = acts[nprog-2] }
+			share = func(acts []pipeline.Action) { acts[last] = acts[last-1] }
+		}
+		if p.After {
+			// the variable is gone: the template engine prints what it prints for a key that is not there
+			c.Dist("foreach:variable-read-through-a-template-afterwards")
+			want = append(want, []any{"l", "Z:<no value>"})
 		}
 		if p.Write > 0 {
 			c.Dist("foreach:body-writes-into-the-item-source:" + p.Source)
@@ -1254,19 +1312,19 @@ func c14Eval(c *Ctx, kind string, raw []byte) {
 				return
 			}
 			// the operations that come before the forEach (sparse source: the indexed writes) are not under test
-			for _, e := range run.errs[:nprog-nfe] {
+			for _, e := range run.errs[:last+1-nfe] {
 				if e != nil {
 					c.Dist("foreach:setup-failed(skipped)")
 					return
 				}
 			}
-			feErr := run.errs[nprog-1]
+			feErr := run.errs[last]
 			// "forEach runs its body once per item": as often as the item source has items — a null entry, a slot
 			// that was never written, an entry of a list inside a list are items —, counted on the listener's
 			// events alone (every pass through the body ends with the body's `steps`, or with the operation
 			// that failed), whatever the body prints
 			if roots, problem := c12Parse(run.rec); problem == "" && len(roots) == nprog {
-				for _, rt := range roots[nprog-nfe:] {
+				for _, rt := range roots[last+1-nfe : last+1] {
 					passes := 0
 					kids := rt.kids
 					for i, k := range kids {
@@ -1279,7 +1337,7 @@ func c14Eval(c *Ctx, kind string, raw []byte) {
 				}
 			}
 			if p.Twice {
-				c.Direct("forEach-error-iff-failure"+v, (run.errs[nprog-2] != nil) == failed, fmt.Sprint(run.errs[nprog-2]))
+				c.Direct("forEach-error-iff-failure"+v, (run.errs[last-1] != nil) == failed, fmt.Sprint(run.errs[last-1]))
 			}
 			got := c14Project(run.tr)
 			if !multiset {
@@ -1332,14 +1390,25 @@ func c14Eval(c *Ctx, kind string, raw []byte) {
 		}
 		data, prog = p.data(), p.prog()
 		want, failed := p.expect()
+		if p.After {
+			want = append(want, []any{"l", c14CallAfter})
+			c.Dist("call:arguments-read-through-a-template-afterwards")
+		}
+		ncall := 3
+		if p.After {
+			ncall = 4
+		}
 		c.Nontrivial()
 		c.Dist("call:path:" + p.path())
 		c.Dist("call:fail:" + p.Fail)
+		if p.BadArg {
+			c.Dist("call:an-argument-template-fails-at-execution")
+		}
 		direct = func(run *c12RunRes, v string) {
 			got := c14Project(run.tr)
 			// "call runs the named callable with its rendered arguments visible at the arguments path"
 			c.Direct("call-arguments-readable-inside"+v, canon(got) == canon(want), map[string]any{"got": got, "want": want})
-			c.Direct("call-error-iff-failure"+v, len(run.errs) == 3 && run.errs[0] == nil && run.errs[1] == nil && (run.errs[2] != nil) == failed,
+			c.Direct("call-error-iff-failure"+v, len(run.errs) == ncall && run.errs[0] == nil && run.errs[1] == nil && (run.errs[2] != nil) == failed,
 				fmt.Sprint(run.errs))
 			// "when [it] finishes, normally or with an error, … the arguments are gone"
 			c.Direct("call-arguments-gone"+v, run.data.Lookup(p.path()) == nil, map[string]any{"path": p.path(), "data": run.dataWire()})
